@@ -125,7 +125,7 @@ package cbreaker
 //@   assume clock_stable
 //@   requires c.state == 1 && c.recoveryDuration > 0
 //@   modifies c.state, c.until, c.rc
-//@   ensures recovering: c.state == 2 && c.until == lastclock + c.recoveryDuration && c.rc != nil && fresh(c.rc) && rcOK(c.rc) && ramped(c.rc) && c.rc.duration == c.recoveryDuration && c.rc.start == lastclock
+//@   ensures recovering: c.state == 2 && c.until == lastclock + c.recoveryDuration && c.rc != nil && fresh(c.rc) && rcOK(c.rc) && ramped(c.rc) && c.rc.duration == c.recoveryDuration && c.rc.start == lastclock && c.rc.allowed == 0 && c.rc.denied == 0
 
 //@ func (*CircuitBreaker).activateFallback
 //@   props C05 C12 C18
@@ -138,6 +138,7 @@ package cbreaker
 //@   ensures only_legal_moves: c.state == old(c.state) || edge(old(c.state), c.state) || (old(c.state) == 1 && c.state == 0)
 //@   ensures recovery_ends_in_standby: !callres(isStandby, 0, 0) && old(c.state) == 2 && lastclock > old(c.until) ==> c.state == 0 && !result
 //@   ensures fallback_period_over: !callres(isStandby, 0, 0) && old(c.state) == 1 && lastclock >= old(c.until) ==> c.state == 2 || c.state == 0
+//@   ensures {C12} every_request_of_the_recovery_is_counted: !callres(isStandby, 0, 0) && c.state == 2 ==> c.rc.allowed + c.rc.denied == ite(old(c.state) == 2, old(c.rc.allowed) + old(c.rc.denied), 0) + 1 && (result <==> c.rc.denied == ite(old(c.state) == 2, old(c.rc.denied), 0) + 1)
 
 //@ func (*CircuitBreaker).checkAndSet
 //@   props C05 C12 C18
